@@ -10781,3 +10781,119 @@ let kf3b_C11 t =
         (XI XH)))))))))))))))) (N.of_nat t.asctx.sc_col))
       (N.leb (Npos (XI (XI (XI (XI (XI (XI (XI (XI (XI (XI (XI (XI (XI (XI
         (XI XH)))))))))))))))) (N.of_nat t.asctx.sc_row)))
+
+type row_claim =
+| Unwrapped
+| Keeps
+| NoClaim
+
+(** val extent_claim : nat -> nat -> nat -> row_claim **)
+
+let extent_claim a z0 nc =
+  if Nat.ltb a z0 then if Nat.leb nc z0 then Unwrapped else Keeps else NoClaim
+
+(** val is_edit : func -> bool **)
+
+let is_edit = function
+| Dch _ -> true
+| Decaln -> true
+| Ech _ -> true
+| Ed _ -> true
+| El _ -> true
+| Ich _ -> true
+| _ -> false
+
+(** val claim_at : term -> func -> nat -> row_claim **)
+
+let claim_at t f r =
+  let col = t.cur_col in
+  let row = t.cur_row in
+  let nc = t.cols in
+  (match f with
+   | Dch _ -> if Nat.eqb r row then Unwrapped else Keeps
+   | Decaln -> Keeps
+   | Ech n0 ->
+     if Nat.eqb r row
+     then extent_claim col (add col (Nat.min (n1 n0) (sub nc col))) nc
+     else Keeps
+   | Ed s ->
+     (match s with
+      | EdBelow ->
+        if Nat.ltb r row
+        then Keeps
+        else if Nat.eqb r row then extent_claim col nc nc else Unwrapped
+      | EdAbove ->
+        if Nat.ltb r row
+        then Unwrapped
+        else if Nat.eqb r row
+             then extent_claim O (Nat.min (add col (S O)) nc) nc
+             else Keeps
+      | EdAll -> Unwrapped
+      | EdSavedLines -> Keeps)
+   | El s ->
+     if Nat.eqb r row
+     then (match s with
+           | ElToRight -> extent_claim col nc nc
+           | ElToLeft -> extent_claim O (Nat.min (add col (S O)) nc) nc
+           | ElAll -> extent_claim O nc nc)
+     else Keeps
+   | Ich _ -> Keeps
+   | _ -> NoClaim)
+
+(** val row_ok : row_claim -> line -> line -> bool **)
+
+let row_ok c l l' =
+  match c with
+  | Unwrapped -> negb l'.wrapped
+  | Keeps -> eqb l.wrapped l'.wrapped
+  | NoClaim -> true
+
+(** val holds_C07_wrapmark : vt -> func -> vt -> bool **)
+
+let holds_C07_wrapmark pre f post =
+  let t = pre.vterm in
+  let t' = post.vterm in
+  if is_edit f
+  then forallb (fun r ->
+         match nth_error (tview t) r with
+         | Some l ->
+           (match nth_error (tview t') r with
+            | Some l' -> row_ok (claim_at t f r) l l'
+            | None -> false)
+         | None -> false) (seq O t.rows)
+  else true
+
+(** val kf1_C07 : vt -> func -> bool **)
+
+let kf1_C07 pre f =
+  let t = pre.vterm in
+  (match f with
+   | Ed s ->
+     (match s with
+      | EdAbove ->
+        (&&) (Nat.leb t.cols (add t.cur_col (S O)))
+          (row_at (tview t) t.cur_row).wrapped
+      | _ -> false)
+   | El s ->
+     (match s with
+      | ElToLeft ->
+        (&&) (Nat.leb t.cols (add t.cur_col (S O)))
+          (row_at (tview t) t.cur_row).wrapped
+      | _ -> false)
+   | _ -> false)
+
+(** val wrapmark_kept : vt -> func -> vt -> bool **)
+
+let wrapmark_kept pre f post =
+  let t = pre.vterm in
+  (&&) (kf1_C07 pre f)
+    (match nth_error (tview post.vterm) t.cur_row with
+     | Some l' ->
+       (&&) (list_eqb cell_eqb l'.cells (blanks t.cols t.tpen)) l'.wrapped
+     | None -> false)
+
+(** val kf1_C17 : vt -> func -> bool **)
+
+let kf1_C17 pre = function
+| Decstr -> negb (ctx_eqb pre.vterm.sctx default_ctx)
+| _ -> false
